@@ -73,6 +73,9 @@ def gen_combinator_design(rng, cfg, tier, shape=None):
             c = _constraint(rng, cfg, factors, ids, approxT, "c%d" % nc[0], kinds)
             if c is not None:
                 out.append(c)
+        sib = gen.sibling_constraint(rng, out, kinds)
+        if sib is not None:
+            out.append(sib)
         return out
 
     def size_of(cr):
